@@ -127,8 +127,9 @@ func (w *World) GenVC(fn *ssa.Function, ct *Contract, opts ...func(*Engine)) (re
 	// a fresh object or a listed target
 	{
 		type target struct {
-			ref  *smt.Term
-			kind string
+			ref   *smt.Term
+			kind  string
+			guard *smt.Term
 		}
 		var allowed []target
 		has := false
@@ -141,7 +142,7 @@ func (w *World) GenVC(fn *ssa.Function, ct *Contract, opts ...func(*Engine)) (re
 			e.bindLets(ctx)
 			for _, a := range c2.Assigns {
 				for _, t := range e.assignTargets(ctx, a) {
-					allowed = append(allowed, target{t.ref, t.kind})
+					allowed = append(allowed, target{t.ref, t.kind, t.guard})
 					if t.kind == "wstream" {
 						e.wstreamKeys = append(e.wstreamKeys, t.ref)
 					}
@@ -160,7 +161,11 @@ func (w *World) GenVC(fn *ssa.Function, ct *Contract, opts ...func(*Engine)) (re
 				ok := []*smt.Term{e.C.Op(">=", smt.Bool, ref, alloc0)}
 				for _, t := range allowed {
 					if t.kind == kind {
-						ok = append(ok, e.C.Eq(ref, t.ref))
+						if t.guard != nil {
+							ok = append(ok, e.C.And(t.guard, e.C.Eq(ref, t.ref)))
+						} else {
+							ok = append(ok, e.C.Eq(ref, t.ref))
+						}
 					}
 				}
 				e.oblige(st, "frame", "", e.C.Or(ok...), pos, "write to "+kind+" is to a fresh object or to a target listed in assigns")
@@ -407,8 +412,9 @@ func callOrd(e *Engine, key string) string {
 }
 
 type assignTarget struct {
-	ref  *smt.Term
-	kind string
+	ref   *smt.Term
+	kind  string
+	guard *smt.Term // nil: unconditional; chanstate(ch, cond): the channel may change only when cond held on entry
 }
 
 // assignTargets lists the (object reference, kind) pairs an assigns target denotes.
@@ -416,29 +422,47 @@ func (e *Engine) assignTargets(ctx *evalCtx, a *Clause) []assignTarget {
 	if call, ok := a.Expr.(*ECall); ok {
 		if id, ok := call.Fn.(*EIdent); ok && (id.Name == "wstream" || id.Name == "rstream") {
 			v := ctx.eval(call.Args[0])
-			return []assignTarget{{streamKey(v.V), id.Name}}
+			return []assignTarget{{ref: streamKey(v.V), kind: id.Name}}
+		}
+	}
+	if call, ok := a.Expr.(*ECall); ok {
+		if id, ok := call.Fn.(*EIdent); ok && (id.Name == "chanstate" || id.Name == "contents") {
+			// chanstate(ch): the queue and closed flag of the channel ch denotes (sequential channel model)
+			v := ctx.eval(call.Args[0]).V
+			switch u := types.Unalias(v.Typ).Underlying().(type) {
+			case *types.Slice:
+				return []assignTarget{{ref: v.Terms[0], kind: "elem:" + typeStr(u.Elem())}}
+			case *types.Map:
+				return []assignTarget{{ref: v.Terms[0], kind: "map"}}
+			}
+			if len(call.Args) == 2 {
+				return []assignTarget{{v.Terms[0], "chan", ctx.boolean(call.Args[1], a.Text)}}
+			}
+			return []assignTarget{{ref: v.Terms[0], kind: "chan"}}
 		}
 	}
 	if un, ok := a.Expr.(*EUn); ok && un.Op == "*" {
 		p := ctx.eval(un.X).V
 		el := types.Unalias(p.Typ).Underlying().(*types.Pointer).Elem()
 		if ae, isArr := arrayElem(el); isArr {
-			return []assignTarget{{p.Terms[0], "elem:" + typeStr(ae)}}
+			return []assignTarget{{ref: p.Terms[0], kind: "elem:" + typeStr(ae)}}
 		}
-		return []assignTarget{{p.Terms[0], "cell:" + typeStr(el)}}
+		return []assignTarget{{ref: p.Terms[0], kind: "cell:" + typeStr(el)}}
 	}
 	if sel, ok := a.Expr.(*ESel); ok {
 		base := ctx.eval(sel.X).V
 		if pt, isPtr := types.Unalias(base.Typ).Underlying().(*types.Pointer); isPtr {
-			return []assignTarget{{base.Terms[0], "cell:" + typeStr(pt.Elem())}}
+			return []assignTarget{{ref: base.Terms[0], kind: "cell:" + typeStr(pt.Elem())}}
 		}
 	}
 	v := ctx.eval(a.Expr).V
 	switch u := types.Unalias(v.Typ).Underlying().(type) {
 	case *types.Slice:
-		return []assignTarget{{v.Terms[0], "elem:" + typeStr(u.Elem())}}
+		return []assignTarget{{ref: v.Terms[0], kind: "elem:" + typeStr(u.Elem())}}
 	case *types.Map:
-		return []assignTarget{{v.Terms[0], "map"}}
+		return []assignTarget{{ref: v.Terms[0], kind: "map"}}
+	case *types.Chan:
+		return []assignTarget{{ref: v.Terms[0], kind: "chan"}}
 	}
 	panic(fmt.Errorf("contract expression: unsupported assigns target %s", a.Text))
 }
@@ -490,9 +514,18 @@ func (e *Engine) havocTarget(f *frame, st *State, ctx *evalCtx, a *Clause, pos s
 		}
 	}
 	var p Val
+	if call, ok := a.Expr.(*ECall); ok {
+		if id, ok := call.Fn.(*EIdent); ok && (id.Name == "chanstate" || id.Name == "contents") {
+			var guard Expr
+			if len(call.Args) == 2 {
+				guard = call.Args[1]
+			}
+			a = &Clause{Label: a.Label, Text: a.Text, Line: a.Line, Expr: call.Args[0], chanState: true, chanGuard: guard}
+		}
+	}
 	if un, ok := a.Expr.(*EUn); ok && un.Op == "*" {
 		p = ctx.eval(un.X).V
-	} else if sel, ok := a.Expr.(*ESel); ok {
+	} else if sel, ok := a.Expr.(*ESel); ok && !a.chanState {
 		// p.f : field of the struct p points to
 		base := ctx.eval(sel.X).V
 		pt, isPtr := types.Unalias(base.Typ).Underlying().(*types.Pointer)
@@ -532,6 +565,27 @@ func (e *Engine) havocTarget(f *frame, st *State, ctx *evalCtx, a *Clause, pos s
 				arr := e.heapArr(st, mn.vals[k], smt.Array(smt.Int, smt.Array(mn.ks, so)))
 				st.Heap[mn.vals[k]] = c.Store(arr, v.Terms[0], c.Fresh("havoc.mv", smt.Array(mn.ks, so)))
 			}
+			return
+		case *types.Chan:
+			// a modelled channel: its queue (multiset, length) and closed flag may change, its capacity does not
+			ci, ok := e.chanInfoOf(v.Typ)
+			if !ok {
+				panic(fmt.Errorf("contract expression: assigns %s: not a modelled channel type", a.Text))
+			}
+			g := c.True()
+			if a.chanGuard != nil {
+				g = ctx.boolean(a.chanGuard, a.Text)
+			}
+			saved := st.Reach
+			st.Reach = c.And(st.Reach, g)
+			e.frameCheckRef(f, st, v.Terms[0], "chan", pos)
+			st.Reach = saved
+			cnt, ln, cp, cls := e.chanArrs(st, ci)
+			nl := c.Fresh("havoc.chanlen", smt.BV(64))
+			e.assume(st, c.And(bvle(c, c.BVLit64(0, 64), nl), bvle(c, nl, c.Select(cp, v.Terms[0]))))
+			st.Heap[ci.cnt] = c.Store(cnt, v.Terms[0], c.Ite(g, c.Fresh("havoc.chancnt", smt.Array(ci.es, smt.BV(64))), c.Select(cnt, v.Terms[0])))
+			st.Heap[ci.ln] = c.Store(ln, v.Terms[0], c.Ite(g, nl, c.Select(ln, v.Terms[0])))
+			st.Heap[ci.cls] = c.Store(cls, v.Terms[0], c.Ite(g, c.Fresh("havoc.chanclosed", smt.Bool), c.Select(cls, v.Terms[0])))
 			return
 		}
 		panic(fmt.Errorf("contract expression: unsupported assigns target %s", a.Text))
